@@ -177,16 +177,23 @@ def messageSetFile (ms : MsgSt) (dir name : Bytes) (fd : Option Handle) : Prog (
         pure ({ ms with path := p, name := n, fd := some h }, false)
       | none => pure ({ ms with path := p, name := n }, false)
 
+/-- `sb.st_mtim` of a successful `fstatat`. -/
+def statMtime : Res → Option Nat
+  | .ok v => some v
+  | _ => none
+
 /-- `maildir_move(src, dst, msg, env)`. -/
 def maildirMove (env : PEnv) (src dst : Maildir) (ms : MsgSt) : Prog (MsgSt × Bool) := do
   if src.stdin && src.root == dst.root then pure (ms, true)
   else
     match src.dirH, dst.dirH with
     | some sh, some dh =>
-      let doutime ← (if !src.stdin then do
+      -- `times[1] = sb.st_mtim; doutime = 1` when fstatat succeeds
+      let mt ← (if !src.stdin then do
           let r ← call (.fstatat sh ms.name)
-          pure (isOk r)
-        else pure false)
+          pure (statMtime r)
+        else pure none)
+      let doutime := mt.isSome
       match msgflags src.subdir dst.subdir ms.flags with
       | none => pure (ms, true)
       | some fl =>
@@ -210,7 +217,7 @@ def maildirMove (env : PEnv) (src dst : Maildir) (ms : MsgSt) : Prog (MsgSt × B
             pure ()
           let _ ← call (.close fd)
           let err2 ← (if !err1 && doutime then do
-              let r ← call (.utimensat dh dstname)
+              let r ← call (.utimensat dh dstname none mt)      -- times[0] = UTIME_OMIT, times[1] = source mtime
               pure (!isOk r)
             else pure err1)
           if err2 then pure (ms, true)
